@@ -368,7 +368,7 @@ def long_seeds():
 
 
 def units(tier, seed):
-    out = []
+    out = [("interleaved", {"stride": 1, "max": 3000 if tier == "quick" else 30000})]
     names = list(READERS)
     # exhaustive short strings: one unit per (reader, slice)
     for rn in names:
@@ -395,7 +395,38 @@ def _tags_for(rn):
     return tags
 
 
+def _interleaved_jobs():
+    oid1, oid2 = (1, 2, 840, 10045, 3, 1, 7), (1, 3, 36, 3, 3, 2, 8, 1, 1, 13)
+
+    def a():
+        e = D.encode_sequence(D.encode_integer(2 ** 200 + 5), D.encode_oid(*oid1), D.encode_octet_string(b"\x01" * 130),
+                              D.encode_bitstring(b"\xf0", 4), D.encode_constructed(1, b"zz"))
+        body, rest = D.remove_sequence(e + b"tail")
+        i, body = D.remove_integer(body)
+        o, body = D.remove_object(body)
+        oc, body = D.remove_octet_string(body)
+        bs, body = D.remove_bitstring(body, 4)
+        tag, inner, body = D.remove_constructed(body)
+        return [bytes(e), i, o, bytes(oc), bytes(bs), tag, bytes(inner), bytes(body), bytes(rest)]
+
+    def b():
+        e = D.encode_sequence(D.encode_integer(127), D.encode_oid(*oid2), D.encode_octet_string(b""), D.encode_bitstring(b"\x80", 7),
+                              D.encode_constructed(0, b"\x05\x00"))
+        body, rest = D.remove_sequence(e)
+        i, body = D.remove_integer(body)
+        o, body = D.remove_object(body)
+        oc, body = D.remove_octet_string(body)
+        bs, body = D.remove_bitstring(body, 7)
+        tag, inner, body = D.remove_constructed(body)
+        return [bytes(e), i, o, bytes(oc), bytes(bs), tag, bytes(inner), bytes(body), bytes(rest)]
+    return {"a": a, "b": b}
+
+
 def run_unit(ctx, name, **kw):
+    if name == "interleaved":
+        from .purity import interleaved_pure
+        interleaved_pure(ctx, "der", [D], _interleaved_jobs(), kw["stride"], max_schedules=kw["max"])
+        return
     if name == "short":
         rn = kw["reader"]
         for L in range(0, kw["maxlen"] + 1):
@@ -510,7 +541,10 @@ def run_unit(ctx, name, **kw):
 
 
 def replay(ctx, case):
-    if case.get("kind") == "big-body":
+    if case.get("kind") == "interleaved":
+        from .purity import interleaved_pure
+        interleaved_pure(ctx, "der", [D], _interleaved_jobs(), 1, max_schedules=3000)
+    elif case.get("kind") == "big-body":
         run_unit(ctx, "mutations")
     elif "reader" in case:
         judge(ctx, case["reader"], bytes.fromhex(case["data"]), as_view=case.get("view", False))
